@@ -195,9 +195,12 @@ class DateTime(SimpleModel):
 
     @staticmethod
     def validate_native(cls, value):
+        # ``values`` holds what the user declared, so a naive value has to be
+        # looked up as it is; only the range checks need an aware datetime.
+        declared = value
         if isinstance(value, datetime.datetime) and value.tzinfo is None:
             value = value.replace(tzinfo=spyne.LOCAL_TZ)
-        return SimpleModel.validate_native(cls, value) and (
+        return SimpleModel.validate_native(cls, declared) and (
             value is None or (
                 # min_dt is also a valid value if gt is intact.
                     (cls.Attributes.gt is None or value > cls.Attributes.gt)
